@@ -66,11 +66,11 @@ def _freq_classifier(d):
     return clf
 
 
-def _make(d, B, seed, w=None, metric=None):
+def _make(d, B, seed, w=None, metric=None, gamma=0.5):
     import skactiveml.stream as st
     from skactiveml.stream.budgetmanager import BalancedIncrementalQuantileFilter
     if metric is not None:
-        return st.StreamProbabilisticAL(budget=B, random_state=seed, metric=metric, metric_dict={"gamma": 0.5})
+        return st.StreamProbabilisticAL(budget=B, random_state=seed, metric=metric, metric_dict={"gamma": gamma})
     if w is None:
         return st.StreamProbabilisticAL(budget=B, random_state=seed)
     # a window smaller than the stream (eviction inside a chunk)
@@ -129,7 +129,7 @@ def sc_chunking(d, n, comp, w=None, uw=False):
 
 
 # ---------------------------------------------------------------- C03: purity
-def sc_purity(d, sizes, w=None, metric=None):
+def sc_purity(d, sizes, w=None, metric=None, gamma=0.5):
     from harness.C03 import scenario
 
     class Env:
@@ -147,10 +147,17 @@ def sc_purity(d, sizes, w=None, metric=None):
     # X array object every time, labels that depend on the chunk (the interposed extra queries see fewer labels)
     Xtr = d.arr([[d.fl(f"t{i}", lo=-4.0, hi=4.0)] for i in range(2)], shape=(2, 1)) if metric else None
     y_few, y_many = (d.arr([0.0, float("nan")]), d.arr([0.0, 1.0])) if metric else (None, None)
+    # a data-dependent bandwidth (gamma='mean': from the variance of the training samples): the training window grows
+    X3 = d.arr([[d.fl(f"t{i}", lo=-4.0, hi=4.0)] for i in range(3)], shape=(3, 1)) if gamma == "mean" else None
+    X2 = d.arr([[X3[0, 0]], [X3[1, 0]]], shape=(2, 1)) if gamma == "mean" else None
 
     def kw(ch):
         if not metric:
             return {}
+        if gamma == "mean":
+            if ch is chunks[-1]:
+                return dict(X=X2, y=y_few, fit_clf=False)
+            return dict(X=X3, y=d.arr([0.0, 1.0, 0.0]), fit_clf=False)
         return dict(X=Xtr, y=(y_few if ch is chunks[-1] else y_many), fit_clf=False)
 
     def query(qs, ch):
@@ -160,7 +167,7 @@ def sc_purity(d, sizes, w=None, metric=None):
     def update(qs, ch, idx):
         _, ut = qs.query(ch.copy(), clf, return_utilities=True, **kw(ch))
         qs.update(ch.copy(), d.arr(idx, dtype=int), budget_manager_param_dict={"utilities": ut})
-    res = scenario(Env, lambda: _make(d, B, seed, w, metric), query, update, chunks, update_only_twin=False)   # (its update needs the utilities of a query)
+    res = scenario(Env, lambda: _make(d, B, seed, w, metric, gamma), query, update, chunks, update_only_twin=False)   # (its update needs the utilities of a query)
     d.witness(any(len(r[0]) for r in res), "some_granted")
 
 
@@ -192,5 +199,5 @@ def harnesses_c03():
     return [dual_harness("probabilistic_al_purity", sc_purity,
                          lambda tier: [dict(sizes=s, w=w) for w in (None, 2)
                                        for s in ([[1, 1], [2, 1]] if tier == "quick" else [[1, 1], [2, 1], [1, 2], [2, 2]])]
-                         + [dict(sizes=[1, 1], metric="rbf")],
+                         + [dict(sizes=[1, 1], metric="rbf"), dict(sizes=[1, 1], metric="rbf", gamma="mean")],
                          UNITS, required_witnesses=("some_granted",), product_abstraction=True)]
